@@ -686,25 +686,6 @@ func (e *Engine) valEq(a, b Value) *smt.Term {
 	return nil
 }
 
-// GoFloatToInt models float→signed integer conversion as the amd64 backend does it:
-// truncation when representable, 0x8000… otherwise (NaN, ±Inf, out of range).
-func GoFloatToInt(x *smt.Term, w int) *smt.Term {
-	x64 := x
-	if x.Sort.W == 32 {
-		x64 = smt.FPToFP(x, smt.FP64)
-	}
-	lim := smt.FPC(9.223372036854775808e18)
-	bad := smt.Or(smt.FPPred(smt.OpFPIsNaN, x64), smt.FPCmp(smt.OpFPLe, lim, x64), smt.FPCmp(smt.OpFPLt, x64, smt.FPC(-9.223372036854775808e18)))
-	if bad.IsConst() {
-		if bad.IsTrue() {
-			return smt.Extract(w-1, 0, smt.BVC(1<<63, 64))
-		}
-		return smt.Extract(w-1, 0, smt.FPToSBVRaw(64, x64))
-	}
-	r := smt.Ite(bad, smt.BVC(1<<63, 64), smt.FPToSBVRaw(64, x64))
-	return smt.Extract(w-1, 0, r)
-}
-
 func (e *Engine) convert(v Value, from, to types.Type) Value {
 	fw, fsigned, fint, ffloat := basicInfo(from)
 	tw, tsigned, tint, tfloat := basicInfo(to)
@@ -733,7 +714,7 @@ func (e *Engine) convert(v Value, from, to types.Type) Value {
 		return smt.UBVToFP(t, s)
 	case ffloat && tint:
 		_ = tsigned
-		return GoFloatToInt(v.(*smt.Term), tw)
+		return smt.GoFloatToInt(v.(*smt.Term), tw)
 	case ffloat && tfloat:
 		s := smt.FP64
 		if tw == 32 {
